@@ -127,8 +127,8 @@ Section ListInstr.
     end.
 
   (* the code of the pinned tree: the position is clamped BEFORE load_items runs
-     (which may pop CODE items): a stale position replaces a neighbour of the
-     addressed record, or lies outside the stack and the new record is dropped *)
+     (which may pop CODE items): the position clamped with the stale size can lie
+     outside the stack; the new record (and the items taken for it) is then dropped *)
   Definition list_set_pinned : instr := fun s =>
     match st_int s with
     | idx :: r => let s1 := set_int s r in
